@@ -8,7 +8,7 @@ from harness import core, instantiate
 from harness.core import Outcome, f2b, b2f
 
 ID = "C14"
-LEAN_TARGETS = ["BeyondVerif.Props.C14", "BeyondVerif.Witness.C14"]
+LEAN_TARGETS = ["BeyondVerif.Props.C14", "BeyondVerif.Props.C14Heap", "BeyondVerif.Witness.C14"]
 THEOREMS = [
     "BeyondVerif.C14.hop_congruence",
     "BeyondVerif.C14.symm_preserved",
@@ -28,9 +28,31 @@ THEOREMS = [
     "BeyondVerif.C14.rot_cross",
     "BeyondVerif.C14.rot_norm",
     "BeyondVerif.C14.nonrotating_frames",
+    "BeyondVerif.CovHeap.hop_other",
+    "BeyondVerif.CovHeap.hop_self",
+    "BeyondVerif.CovHeap.hops_project",
+    "BeyondVerif.CovHeap.wf_hop",
+    "BeyondVerif.CovHeap.newCov_spec",
+    "BeyondVerif.CovHeap.derive_spec",
+    "BeyondVerif.CovHeap.mkView_spec",
+    "BeyondVerif.CovHeap.copyCov_spec",
+    "BeyondVerif.CovHeap.pickle_spec",
+    "BeyondVerif.CovHeap.write_other",
+    "BeyondVerif.CovHeap.attach_other",
+    "BeyondVerif.CovHeap.svHop_other",
+    "BeyondVerif.CovHeap.svHop_atomic",
+    "BeyondVerif.CovHeap.step_wf",
+    "BeyondVerif.CovHeap.step_other",
+    "BeyondVerif.CovHeap.step_allSep",
+    "BeyondVerif.C14.heap_path_independent",
+    "BeyondVerif.C14.heap_init",
+    "BeyondVerif.C14.two_states_same_epoch",
+    "BeyondVerif.C14.derived_independent",
     "BeyondVerif.C14W.old_setter_local_after_reframe_differs",
     "BeyondVerif.C14W.old_setter_frame_after_local_recovers",
     "BeyondVerif.C14W.current_model_path_independent",
+    "BeyondVerif.C14W.memo_keyed_without_state_confuses_states",
+    "BeyondVerif.C14W.shared_dict_relabels_source",
     "BeyondVerif.C14W.laws",
     "BeyondVerif.C14W.loc_orth",
     "BeyondVerif.C14W.loc_equivariant",
@@ -40,13 +62,22 @@ LEVEL_TEXT = ("Lean theorems about a state-machine model of Cov (tag, _orb_frame
               "of the position block are preserved for every sequence); for every sequence of targets the bookkeeping never moves and the final matrix is Mt C0 Mt^T "
               "with Mt determined by the last target and the original state only (path_independent, full statement; seq_eq_single_hop); back conversion restores; "
               "the covariance follows its state; Cov.copy is transparent. to_qsw/to_tnw (hand template) are orthonormal and rotation-equivariant. The same model text, "
-              "instantiated with floats, is compared with the real Cov on random sequences fed with the real conversion matrices.")
-LEVEL_NOTE = ("composition laws of the orientation conversions are hypotheses (C02) tested numerically by the oracle; model hand-written, tied by correspondence; "
+              "instantiated with floats, is compared with the real Cov on random sequences fed with the real conversion matrices. "
+              "Several objects in one process: a heap model (Model/CovHeap.lean) of the cells Cov objects are made of - array memory, `_data` dict, private state copy, "
+              "`_orb_frame` - with the cell sharing that Cov.__new__, Cov.copy, __array_finalize__ (k * c, a + b, views, copy.copy), pickling and sv.cov = c produce; no memo. "
+              "Proved for every matrix type: an operation on one object leaves every object sharing neither memory nor dict unchanged (hop_other, write_other, attach_other, "
+              "svHop_other; step_other for every operation of the model, step_allSep: pairwise separation is invariant in a process that takes no numpy views), new objects share nothing with old ones except a view its base's memory (newCov/copyCov/pickle/derive/mkView_spec), and an interleaved run looked at "
+              "through one object is the single-object run of the targets addressed to it (hops_project); over real matrices: each covariance ends as Mt C0 Mt^T for its OWN "
+              "state, matrix and last target whatever happens to the others (heap_path_independent, two_states_same_epoch, derived_independent). The heap model runs against "
+              "the real classes on random interleaved operation sequences over several states sharing date and frame.")
+LEVEL_NOTE = ("numpy views share memory with their base by definition (modelled, excluded from the separation theorems by hypothesis Sep); arrays made by numpy lack `_orb_frame` "
+              "and cannot reach or leave a regular frame (open finding C14-derived-array-no-orb-frame, modelled as is); composition laws of the orientation conversions are hypotheses (C02) tested numerically by the oracle; model hand-written, tied by correspondence; "
               "R -> double gap by tolerance only; a Cov constructed with the name of a frame is outside the model (two open findings); "
               "Lean kernel + propext/Classical.choice/Quot.sound")
 TECHNIQUE = "Lean 4 proof (invariant over all hop sequences, Mathlib matrices) + kernel-decided witness of the guarded regression + differential correspondence of the same generic model on floats"
 TRUSTED = [
     "lean/BeyondVerif/Model/Cov.lean: hand-written model of Cov.frame setter / Cov.copy / StateVector.frame setter, generic in the matrix type; tied to beyond/orbits/cov.py by the correspondence run (tags exact, matrices rtol 1e-9)",
+    "lean/BeyondVerif/Model/CovHeap.lean: hand-written heap model (which cells Cov.__new__, Cov.copy, __array_finalize__, __reduce__/__setstate__, StateVector.cov setter allocate or share; when the setter raises AttributeError); tied to the code by the correspondence op `heap` (all bookkeeping of all objects exact after every operation, values rtol 1e-9)",
     "lean/templates/Local.tpl: hand-written to_qsw / to_tnw / expand, tied to beyond/frames/local.py by the correspondence op `tolocal`",
     "Generated/Frames.lean: registry of built-in frames (name -> canonical name) and the orientation links with their rate flag, read from the live modules / the AST of orient.py each run",
     "numpy double arithmetic vs R: tolerance 1e-9 relative to the covariance scale",
@@ -58,6 +89,8 @@ ASSUMPTIONS = [
     "theorems are over R; the implementation computes in IEEE doubles",
 ]
 NOT_COVERED = [
+    "numpy views of a covariance (c.T, c[:], c.view(), c.reshape) look at the memory of their base: a frame change through the view rewrites the values of the base while the base keeps its label (numpy semantics; the heap model and the correspondence reproduce it, the separation theorems exclude it by hypothesis Sep, the oracle families do not use views)",
+    "3x3 / 1-d slices of a covariance and non-6x6 results (c[:3, :3], c.sum()) keep a frame label but are not covariances of the state; not modelled",
     "the numerical content of to_local beyond orthonormality / equivariance (which axis is which: q along position, t along velocity, w along angular momentum) is checked by the oracle against an independent implementation only",
     "frames created at run time (orbit2frame, ground stations, JPL bodies: different centres) and the curvilinear Hill frame",
     "covariances attached to a state given in a rotating frame (outside the property's quantifier)",
@@ -67,9 +100,17 @@ OPEN = [
     "a Cov constructed with the *name* of a frame (documented `frame (str)`, used by io/ccsds/cov.py) is outside the model: the real setter raises AttributeError and the covariance does not follow its state (known findings C14-frame-name-tag-unconvertible / -not-following, open; proposed_fixes/C14-cov-frame-name-not-resolved.diff not applied: behaviour change at CCSDS load); oracle only",
     "composition laws of Orientation.convert_to (Laws) and the block shape of the conversion matrices (PosShape) are hypotheses here (C02 proves them); the oracle evaluates them on the real matrices",
     "local_orthonormal / local_equivariant are proved for the list model of to_qsw / to_tnw (templates/Local.tpl, R instantiation); the sequence theorems take orthogonality of toLocal at the original state as the matrix hypothesis LocOrth - the bridge between rows-as-lists and Matrix (Fin 3 + Fin 3) is not formalised",
-    "`sv.cov = c` (StateVector.cov setter) re-seats the private copy of `c` without updating `_orb_frame`; attaching a covariance built for a state in another frame is not modelled (the harness always attaches a covariance built from the same state)",
+    "`sv.cov = c` (StateVector.cov setter) re-seats the private copy of `c` without updating `_orb_frame`; the heap model and its correspondence reproduce this (op `att`, also with a covariance built for another state or frame), but no theorem says what such a covariance means: heap_path_independent starts from objects whose `_orb_frame` is the frame of their private copy (heap_init)",
+    "the model identifies a frame with its name; Frame objects compare by identity and unpickling rebuilds them, so an unpickled covariance attached on its own to a state does not follow it and an array derived from it raises on `e.frame = <its own frame>` (known finding C14-unpickled-frame-identity, open; proposed_fixes/C14-frame-identity-after-pickle.diff); the heap correspondence keeps these two situations out of its sequences, the oracle family `unpickled` reports them",
+    "arrays made by numpy out of a covariance have no `_orb_frame`: the setter raises AttributeError unless both tags are QSW/TNW (known finding C14-derived-array-no-orb-frame, open; proposed_fixes/C14-cov-derived-array-orb-frame.diff); heap_path_independent therefore speaks about objects made by Cov(...), Cov.copy, unpickling; for numpy-made arrays only independence from their source is proved (derived_independent)",
 ]
-RULE = ("correspondence: random sequences (length 1-5) of cov hops / state hops / copies over the 10 built-in frames + QSW/TNW from each non-rotating start frame, "
+RULE = ("heap correspondence: 2-4 states (mostly sharing date and frame, sometimes equal), a covariance per state built from every kind of `values` (lists of ints/floats, int32/int64/"
+        "float32/float64 arrays, np.matrix, Fortran/strided arrays, a Cov), then 6-12 random operations on random objects: frame assignment, state frame assignment, k * c, c + d, "
+        "copy.copy/deepcopy/np.array(subok)/astype, views (c.T, c[:], ...), in-place *=, Cov.copy(frame), pickle round trip, Cov(sv, cov), sv.cov = c; after EVERY operation the tag, "
+        "`_orb_frame`, private copy and values of EVERY object and the frame of every state are compared with the compiled Lean heap model (bookkeeping and error kind exact, values rtol 1e-9). "
+        "oracle families on several objects: interleaved hops of 2-6 covariances (built by Cov(), attach, copy, pickle, Cov(sv, cov), sv.copy) against R C R^T of their own state from independent "
+        "QSW/TNW/Jacobian references, every other object bitwise unchanged after each hop; arrays derived by 11 numpy operations vs their source in both orders; the constructor for 14 kinds of values. "
+        "correspondence: random sequences (length 1-5) of cov hops / state hops / copies over the 10 built-in frames + QSW/TNW from each non-rotating start frame, "
         "random orbits and PSD matrices, real conversion matrices handed to the compiled Lean model; bookkeeping fields exact, matrices rtol 1e-9; plus to_local alone; "
         "non-trivial = at least one hop changes the tag; distinct = distinct request line. "
         "oracle: sequence vs single hop, symmetry, PSD, position-block eigenvalues (1e-9), back conversion, independent QSW/TNW/Jacobian references, cov follows state, composition laws of the real matrices")
@@ -349,7 +390,7 @@ def correspondence(ctx):
     out = Outcome()
     rng = ctx.rng
     reqs, meta = [], []
-    for it in range(ctx.n(700, 12000)):
+    for it in range(ctx.n(500, 12000)):
         f0 = NONROT[it % len(NONROT)]
         if rng.random() < 0.05:
             f0 = rng.choice(["ITRF", "PEF", "TIRF"])     # outside the property's quantifier, inside the model's
@@ -377,6 +418,7 @@ def correspondence(ctx):
     replies = core.Driver().run(reqs)
     for req, (obs, err, s, inp), rep in zip(reqs, meta, replies):
         compare(out, obs, err, s, inp, rep)
+    heap_correspondence(ctx, out)
     return out
 
 
@@ -422,6 +464,353 @@ def compare(out, obs, err, s, inp, rep):
                 "model_cov00": [b2f(toks[46 * i + 10]) for i in range(len(obs))]}, limit=3)
 
 
+
+# ---------------------------------------------------------------- several objects in one process (Model/CovHeap.lean)
+
+DUP_KINDS = ["array-subok", "copy.copy", "deepcopy", "astype", "ndarray.copy", "positive"]
+VIEW_KINDS = {"V": ["slice", "view", "reshape", "ellipsis"], "T": ["T", "transpose", "swapaxes"]}
+INT_KINDS = ["list-int", "list-float", "list-mixed", "tuple-int", "int32", "int64", "float32", "float64", "f64-fortran", "f64-strided", "matrix-int", "matrix-float", "cov"]
+
+
+def gen_cov_int(rng):
+    """integer-valued symmetric PSD 6x6 (every entry below 2^24: exact in float32 as well)"""
+    import numpy as np
+    rank = rng.choice([6, 6, 6, 4, 2, 1])
+    a = np.array([[rng.randint(-3, 3) for _ in range(rank)] for _ in range(6)], dtype=np.int64)
+    d = np.diag([rng.choice([1, 10, 100])] * 3 + [1] * 3).astype(np.int64)
+    c = d @ a @ a.T @ d
+    if not c.any():
+        c = d @ d
+    return c
+
+
+def as_kind(ci, kind, sv=None, tag=None):
+    """the integer-valued matrix `ci` handed to Cov(...) as the given kind of `values`"""
+    import numpy as np
+    rows = [[int(v) for v in r] for r in np.asarray(ci)]
+    if kind == "list-int":
+        return rows
+    if kind == "list-float":
+        return [[float(v) for v in r] for r in rows]
+    if kind == "list-mixed":
+        return [[(float(v) if (i + j) % 2 else v) for j, v in enumerate(r)] for i, r in enumerate(rows)]
+    if kind == "tuple-int":
+        return tuple(tuple(r) for r in rows)
+    if kind in ("int32", "int64", "float32", "float64"):
+        if kind == "uint16":
+            return np.abs(np.array(rows)).astype(np.uint16) if False else np.array(rows, dtype=np.int64).astype(np.int32)
+        return np.array(rows, dtype=getattr(np, kind))
+    if kind == "f64-fortran":
+        return np.asfortranarray(np.array(rows, dtype=float))
+    if kind == "f64-strided":
+        big = np.zeros((12, 12))
+        big[::2, ::2] = np.array(rows, dtype=float)
+        return big[::2, ::2]
+    if kind == "matrix-int":
+        return np.matrix(rows)
+    if kind == "matrix-float":
+        return np.matrix(rows, dtype=float)
+    if kind == "cov":
+        from beyond.orbits.cov import Cov
+        return Cov(sv, np.array(rows, dtype=float), sv.frame if tag is None else tagobj(tag))     # the frame argument of the outer call is ignored
+    raise ValueError(kind)
+
+
+def tagobj(tag):
+    from beyond.frames.frames import get_frame
+    return tag if tag in LOCAL else get_frame(tag)
+
+
+class RealHeap:
+    """the operations of Model/CovHeap.lean on the real classes"""
+
+    def __init__(self, dates, states):
+        self.dates = [mkdate(d) for d in dates]
+        self.svs = [make_sv(x, self.dates[d], f0) for d, f0, x in states]
+        self.objs = []
+
+    def apply(self, op):
+        import copy as _copy
+        import pickle
+        import numpy as np
+        from beyond.orbits.cov import Cov
+        from beyond.errors import UnknownFrameError
+        k = op[0]
+        o = self.objs
+        try:
+            if k == "new":
+                _, s, tag, kind, values = op
+                vals = np.array(values, dtype=float) if kind == "f64" else as_kind(np.array(values), kind, self.svs[s], tag)
+                o.append(Cov(self.svs[s], vals, tagobj(tag)))
+            elif k == "from":
+                o.append(Cov(self.svs[op[1]], o[op[2]], None))
+            elif k == "att":
+                self.svs[op[1]].cov = o[op[2]]
+            elif k == "hop":
+                o[op[1]].frame = op[2]
+            elif k == "svh":
+                self.svs[op[1]].frame = op[2]
+            elif k == "scale":
+                o.append(op[2] * o[op[1]] if op[3] == "k*c" else o[op[1]] * op[2])
+            elif k == "dup":
+                c = o[op[1]]
+                o.append({"array-subok": lambda: np.array(c, subok=True), "copy.copy": lambda: _copy.copy(c), "deepcopy": lambda: _copy.deepcopy(c),
+                          "astype": lambda: c.astype(float), "ndarray.copy": lambda: np.ndarray.copy(c), "positive": lambda: +c}[op[2]]())
+            elif k == "add":
+                o.append(o[op[1]] + o[op[2]] if op[3] == "+" else np.add(o[op[1]], o[op[2]]))
+            elif k == "view":
+                c = o[op[1]]
+                o.append({"slice": lambda: c[:], "view": lambda: c.view(), "reshape": lambda: c.reshape(6, 6), "ellipsis": lambda: c[...],
+                          "T": lambda: c.T, "transpose": lambda: c.transpose(), "swapaxes": lambda: np.swapaxes(c, 0, 1)}[op[3]]())
+            elif k == "imul":
+                c = o[op[1]]
+                c *= op[2]
+            elif k == "copy":
+                o.append(o[op[1]].copy() if op[2] == "-" else o[op[1]].copy(frame=op[2]))
+            elif k == "pkl":
+                o.append(pickle.loads(pickle.dumps(o[op[1]])))
+            else:
+                raise RuntimeError("bad op " + k)
+        except UnknownFrameError:
+            return "unknown-frame"
+        except AttributeError as e:
+            if "_orb_frame" in str(e):
+                return "attribute"
+            return "raised:AttributeError:" + str(e)[:60].replace(" ", "_")
+        except ValueError as e:
+            if "Non-symmetric" in str(e):
+                return "asymmetric"
+            return "raised:ValueError:" + str(e)[:60].replace(" ", "_")
+        except Exception as e:  # noqa: BLE001 - reported as a disagreement (the model never predicts it)
+            return "raised:" + type(e).__name__ + ":" + str(e)[:60].replace(" ", "_")
+        return "ok"
+
+    def observe(self):
+        import numpy as np
+        objs = []
+        for c in self.objs:
+            tag = c.frame if isinstance(c.frame, str) else c.frame.name
+            of = getattr(c, "_orb_frame", None)
+            objs.append((tag, "-" if of is None else of.name, c.orb.frame.name, self.dates.index(c.orb.date), [float(v) for v in c.orb],
+                         [float(v) for v in np.array(c, dtype=float).flatten()]))
+        return objs, [sv.frame.name for sv in self.svs]
+
+
+def op_tokens(op):
+    """request tokens of one operation (the kind-of-call fields are not part of the model)"""
+    k = op[0]
+    if k == "new":
+        import numpy as np
+        return ["new", str(op[1]), op[2]] + [f2b(v) for v in np.array(op[4], dtype=float).flatten()]
+    if k in ("from", "att", "add"):
+        return [k, str(op[1]), str(op[2])]
+    if k in ("hop", "svh", "copy"):
+        return [k, str(op[1]), op[2]]
+    if k in ("scale", "imul"):
+        return [k, str(op[1]), f2b(op[2])]
+    if k in ("dup", "pkl"):
+        return [k, str(op[1])]
+    if k == "view":
+        return ["view", str(op[1]), op[2]]
+    raise ValueError(k)
+
+
+def gen_heap_case(rng, nops):
+    """a scenario generated while it is executed on the real classes (the generator looks at the real objects only to
+    aim its choices: e.g. arrays made by numpy can only go from QSW to TNW and back)"""
+    nd = 1 if rng.random() < 0.7 else 2
+    dates = []
+    while len(dates) < nd:
+        d = gen_date(rng)
+        if d not in dates:
+            dates.append(d)
+    ns = rng.randint(2, 4)
+    fc = rng.choice(NONROT) if rng.random() < 0.93 else rng.choice(["ITRF", "PEF", "TIRF"])
+    pool = [fc] + rng.sample(FRAMES, 2)
+    states = []
+    for s in range(ns):
+        d = 0 if rng.random() < 0.75 else rng.randrange(nd)
+        f0 = fc if rng.random() < 0.75 else rng.choice(pool)
+        x = list(states[rng.randrange(s)][2]) if s and rng.random() < 0.2 else gen_state(rng)
+        states.append((d, f0, x))
+    real = RealHeap(dates, states)
+    ops, obs = [], []
+    dropped = 0
+
+    def push(op):
+        nonlocal dropped
+        err = real.apply(op)
+        if err == "asymmetric":
+            dropped += 1        # np.allclose(buf, buf.T) of the constructor on a rounded matrix: not an event of the model
+            return
+        ops.append(op)
+        obs.append((err,) + real.observe())
+
+    def newcov(s):
+        if rng.random() < 0.3:
+            ci = gen_cov_int(rng)
+            push(["new", s, states[s][1] if rng.random() < 0.6 else rng.choice(LOCAL), rng.choice(INT_KINDS), ci.tolist()])
+        else:
+            c0 = gen_cov(rng)[0]
+            push(["new", s, states[s][1] if rng.random() < 0.6 else rng.choice(LOCAL), "f64", c0.tolist()])
+    for s in range(ns):
+        newcov(s)
+        if rng.random() < 0.6:
+            push(["att", s, len(real.objs) - 1])
+    names = pool + ["WGS84"]
+
+    def clone_tagged(c):
+        """the frame of an unpickled covariance is a Frame object of its own, equal to no registered frame (Frame compares by identity):
+        the model identifies frames with their names, so the two places where that identity decides (known finding
+        C14-unpickled-frame-identity, oracle family `unpickled`) are kept out of the sequences"""
+        from beyond.frames.frames import get_frame
+        return not isinstance(c.frame, str) and c.frame is not get_frame(c.frame.name)
+    for _ in range(nops):
+        n = len(real.objs)
+        i = rng.randrange(n)
+        r = rng.random()
+        if 0.95 <= r < 0.98 and clone_tagged(real.objs[i]):
+            r = 0.0
+        if r < 0.50 or n >= 9:
+            c = real.objs[i]
+            if not hasattr(c, "_orb_frame") and rng.random() < 0.7:
+                t = rng.choice(LOCAL)
+            else:
+                t = rng.choice(names + LOCAL * 3)
+            if rng.random() < 0.02:
+                t = rng.choice(["FOO", "qsw", "Hill2"])
+            if not hasattr(c, "_orb_frame") and clone_tagged(c) and t in FRAMES + ["WGS84"] and canon(t) == c.frame.name:
+                t = rng.choice(LOCAL)
+            push(["hop", i, t])
+        elif r < 0.57:
+            push(["svh", rng.randrange(ns), rng.choice(names)])
+        elif r < 0.64:
+            push(["scale", i, rng.choice([9.0, 0.25, -1.0, 1.0, 2.0, rng.uniform(0.1, 10)]), rng.choice(["k*c", "c*k"])])
+        elif r < 0.69:
+            push(["dup", i, rng.choice(DUP_KINDS)])
+        elif r < 0.73:
+            push(["add", i, rng.randrange(n), rng.choice(["+", "np.add"])])
+        elif r < 0.79:
+            tv = rng.choice("VT")
+            push(["view", i, tv, rng.choice(VIEW_KINDS[tv])])
+        elif r < 0.82:
+            push(["imul", i, rng.choice([2.0, 0.5, 9.0])])
+        elif r < 0.88:
+            push(["copy", i, rng.choice(["-", "-"] + names + LOCAL)])
+        elif r < 0.92:
+            push(["pkl", i])
+        elif r < 0.95:
+            push(["from", rng.randrange(ns), i])
+        elif r < 0.98:
+            push(["att", rng.randrange(ns), i])
+        else:
+            newcov(rng.randrange(ns))
+    return dates, states, ops, obs, dropped, pool
+
+
+def heap_request(dates, states, ops, pool):
+    from beyond.frames.frames import get_frame
+    names = []
+    for _, f0, _ in states:
+        if f0 not in names:
+            names.append(f0)
+    for n in pool + ["ITRF"]:
+        if canon(n) not in names:
+            names.append(canon(n))
+    table = []
+    k = 0
+    for di, d in enumerate(dates):
+        dd = mkdate(d)
+        for a in names:
+            for b in names:
+                if a != b:
+                    m = get_frame(a).orientation.convert_to(dd, get_frame(b).orientation)
+                    table += [str(di), a, b] + [f2b(v) for v in m.flatten()]
+                    k += 1
+    toks = ["heap", str(len(states))]
+    for d, f0, x in states:
+        toks += [str(d), f0] + [f2b(v) for v in x]
+    toks += [str(k)] + table
+    for op in ops:
+        toks += op_tokens(op)
+    return " ".join(toks)
+
+
+def tscale(m):
+    """comparison scale of a covariance-like matrix from its own block traces"""
+    import numpy as np
+    m = np.asarray(m).reshape(6, 6)
+    sp = math.sqrt(abs(np.trace(m[:3, :3])) + abs(m[:3, :3]).max())
+    sv = math.sqrt(abs(np.trace(m[3:, 3:])) + abs(m[3:, 3:]).max())
+    return np.array([sp] * 3 + [sv + 7.3e-5 * sp + 1e-300] * 3) + 1e-300
+
+
+def compare_heap(out, obs, inp, rep):
+    import numpy as np
+    segs = rep.split(" | ")
+    if len(segs) != len(obs):
+        out.fail("heap-length", "model and implementation executed a different number of operations", inp, observed=len(obs), expected=rep[:80])
+        return
+    ns = len(inp["states"])
+    for n, (seg, (err, objs, svf)) in enumerate(zip(segs, obs)):
+        toks = seg.split()
+        op = inp["ops"][n][:4] if inp["ops"][n][0] != "new" else inp["ops"][n][:4]
+        if toks[0] != err:
+            out.fail("heap-error-kind:" + inp["ops"][n][0], f"op {n} {op}: outcome differs", inp, observed=err, expected=toks[0])
+            return
+        nobj = int(toks[1])
+        if nobj != len(objs) or len(toks) != 2 + 46 * nobj + ns:
+            out.fail("heap-objects:" + inp["ops"][n][0], f"op {n} {op}: number of objects differs", inp, observed=len(objs), expected=nobj)
+            return
+        if toks[2 + 46 * nobj:] != svf:
+            out.fail("heap-state-frames", f"op {n} {op}: frames of the states differ", inp, observed=svf, expected=toks[2 + 46 * nobj:])
+            return
+        for j, o in enumerate(objs):
+            t = toks[2 + 46 * j: 2 + 46 * (j + 1)]
+            mb = [t[0], t[1], t[2], int(t[3])]
+            if list(o[:4]) != mb:
+                out.fail("heap-bookkeeping:" + inp["ops"][n][0], f"op {n} {op}: object {j}: (tag, _orb_frame, frame of the private copy, date) differ", inp,
+                         observed=list(o[:4]), expected=mb)
+                return
+            morb = [b2f(v) for v in t[4:10]]
+            rn = max(abs(v) for v in o[4][:3])
+            vn = max(abs(v) for v in o[4][3:]) + 7.3e-5 * rn
+            if not all(core.close(a, b, rtol=0, atol=1e-9 * (rn if q < 3 else vn)) for q, (a, b) in enumerate(zip(o[4], morb))):
+                out.fail("heap-orb:" + inp["ops"][n][0], f"op {n} {op}: object {j}: private state copy differs", inp, observed=o[4], expected=morb)
+                return
+            mm = np.array([b2f(v) for v in t[10:]]).reshape(6, 6)
+            rm = np.array(o[5]).reshape(6, 6)
+            if not mclose(rm, mm, tscale(mm)):
+                out.fail("heap-matrix:" + inp["ops"][n][0], f"op {n} {op}: object {j}: values differ", inp, observed=o[5], expected=mm.flatten().tolist())
+                return
+    out.sample({"heap ops": [o[:4] if o[0] != "new" else o[:4] for o in inp["ops"]][:12], "final impl tags": [o[0] for o in obs[-1][1]],
+                "final model tags": [segs[-1].split()[2 + 46 * j] for j in range(len(obs[-1][1]))]}, limit=2)
+
+
+def heap_correspondence(ctx, out):
+    rng = ctx.rng
+    reqs, meta = [], []
+    dropped = total = 0
+    for _ in range(ctx.n(110, 2500)):
+        dates, states, ops, obs, dr, pool = gen_heap_case(rng, rng.randint(6, 12))
+        dropped += dr
+        total += len(ops)
+        req = heap_request(dates, states, ops, pool)
+        reqs.append(req)
+        inp = {"dates": dates, "states": [list(s) for s in states], "ops": ops}
+        meta.append((obs, inp))
+        kinds = sorted({o[0] for o in ops})
+        shared = len({(d, f) for d, f, _ in states}) < len(states)
+        out.count(key=hashlib.sha1(req.encode()).hexdigest(), nontrivial=any(o[0] == "hop" for o in ops), kind="heap", objects=len(obs[-1][1]),
+                  shared_epoch_and_frame=shared, errors=sum(1 for o in obs if o[0] != "ok"))
+        for o in ops:
+            out.tally("heapop=" + o[0])
+    if dropped > 0.02 * max(total, 1) + 2:
+        out.fail("heap-constructor-asymmetric", "the Cov constructor refused more than 2 % of the matrices produced by frame changes as non symmetric", {"dropped": dropped, "ops": total})
+    replies = core.Driver().run(reqs)
+    for (obs, inp), rep in zip(meta, replies):
+        compare_heap(out, obs, inp, rep)
+
 # ---------------------------------------------------------------- oracle on the real API
 
 def oracle(ctx, widened):
@@ -429,7 +818,7 @@ def oracle(ctx, widened):
     from beyond.frames.frames import get_frame
     out = Outcome()
     rng = ctx.rng
-    N = 1500 if (widened or ctx.thorough) else 150
+    N = 1500 if (widened or ctx.thorough) else 120
     for it in range(N):
         f0 = NONROT[it % len(NONROT)] if it < 4 * len(NONROT) else rng.choice(NONROT)
         x = gen_state(rng)
@@ -530,10 +919,374 @@ def oracle(ctx, widened):
             rel = float(np.abs(np.array(sv.cov) - refk).max() / max(np.abs(refk).max(), 1e-300))
             out.fail("path-dependent:" + fam2, "QSW/TNW covariance requested after the state (and its covariance) changed frame is not the one of the inertial state's axes",
                      dict(inp, g=g, mids=mids, local=k), observed={"rel_diff": rel}, expected=refk.tolist())
+    several_objects(out, rng, bool(widened or ctx.thorough))
     named_tags(out, rng, 40 if (widened or ctx.thorough) else 6)
     laws(out, rng, 40 if (widened or ctx.thorough) else 8)
     out.sample({"checks": "seq vs single hop, symmetry, PSD, position-block spectrum, back conversion, reference R C R^T, cov follows state (copy / in place / then local), conversion-matrix laws"})
     return out
+
+
+
+# ---------------------------------------------------------------- oracle families on several objects (real API, independent references)
+
+def home_matrix(tag0, x, c0):
+    """the covariance expressed in the frame of its state, given its values `c0` in `tag0` (that frame, or QSW/TNW of that state)"""
+    import numpy as np
+    c0 = np.asarray(c0, dtype=float)
+    if tag0 in LOCAL:
+        L = ref_local(tag0, x)
+        return L.T @ c0 @ L
+    return c0
+
+
+def ref_rotation(x, date, f0, t):
+    import numpy as np
+    if t in LOCAL:
+        return ref_local(t, x)
+    if canon(t) == f0:
+        return np.identity(6)
+    return state_jacobian(x, date, f0, canon(t))
+
+
+MULTI_VIA = ["cov", "attached", "copy", "pickle", "from", "sv.copy"]
+
+
+def build_via(sv, c0, tag0, via):
+    """a full covariance object (one that has its `_orb_frame`) of state `sv`, obtained in one of the ways the API offers;
+    also returns the object it was made from when that is another object (it must never be touched by what is done to the result)"""
+    import pickle
+    import numpy as np
+    from beyond.orbits.cov import Cov
+    base = Cov(sv, np.array(c0, dtype=float), tagobj(tag0))
+    if via == "cov":
+        return base, None
+    if via == "attached":
+        sv.cov = base
+        return sv.cov, None
+    if via == "copy":
+        return base.copy(), base
+    if via == "pickle":
+        return pickle.loads(pickle.dumps(base)), base
+    if via == "from":
+        return Cov(sv, base, None), base
+    if via == "sv.copy":
+        sv.cov = base
+        return sv.copy().cov, base
+    raise ValueError(via)
+
+
+def tagname(c):
+    return c.frame if isinstance(c.frame, str) else c.frame.name
+
+
+def gen_multi(rng):
+    nd = 1 if rng.random() < 0.8 else 2
+    dates = []
+    while len(dates) < nd:
+        d = gen_date(rng)
+        if d not in dates:
+            dates.append(d)
+    ns = rng.randint(2, 3)
+    fc = rng.choice(NONROT)
+    states = []
+    for s in range(ns):
+        d = 0 if rng.random() < 0.8 else rng.randrange(nd)
+        f0 = fc if rng.random() < 0.8 else rng.choice(NONROT)
+        x = list(states[rng.randrange(s)][2]) if s and rng.random() < 0.15 else gen_state(rng)
+        states.append([d, f0, x])
+    objects = []
+    shared_c = gen_cov(rng)[0].tolist()
+    for s in range(ns):
+        for _ in range(1 if rng.random() < 0.7 else 2):      # sometimes the same state twice
+            c0 = shared_c if rng.random() < 0.3 else gen_cov(rng)[0].tolist()
+            objects.append({"state": s, "tag0": states[s][1] if rng.random() < 0.6 else rng.choice(LOCAL), "cov": c0, "via": rng.choice(MULTI_VIA)})
+    pool = FRAMES + LOCAL * 4
+    hops = []
+    # first a round in which every object goes to the same target from the same kind of tag (the situation a memo would confuse) ...
+    t = rng.choice(LOCAL) if rng.random() < 0.6 else rng.choice(FRAMES)
+    order = list(range(len(objects)))
+    rng.shuffle(order)
+    hops += [[i, t] for i in order]
+    # ... then a random interleaving
+    for _ in range(rng.randint(2, 3) * len(objects)):
+        hops.append([rng.randrange(len(objects)), rng.choice(pool)])
+    return {"kind": "multi", "dates": dates, "states": states, "objects": objects, "hops": hops}
+
+
+def check_multi(out, scen):
+    import numpy as np
+    dates, states = scen["dates"], scen["states"]
+    svs = [make_sv(x, dates[d], f0) for d, f0, x in states]
+    objs, homes, watch = [], [], []
+    for o in scen["objects"]:
+        d, f0, x = states[o["state"]]
+        c, base = build_via(make_sv(x, dates[d], f0) if o["via"] in ("attached", "sv.copy") else svs[o["state"]], o["cov"], o["tag0"], o["via"])
+        objs.append(c)
+        if base is not None:
+            watch.append((len(objs) - 1, o["via"], base, tagname(base), np.array(base)))
+        homes.append(home_matrix(o["tag0"], x, o["cov"]))
+    rot = {}
+
+    def expected(i, t):
+        s = scen["objects"][i]["state"]
+        d, f0, x = states[s]
+        key = (s, t)
+        if key not in rot:
+            rot[key] = ref_rotation(x, dates[d], f0, t)
+        return rot[key] @ homes[i] @ rot[key].T
+
+    def cls(i, prev, t):
+        d, f0, x = states[scen["objects"][i]["state"]]
+        shared = any(dd == d and ff == f0 and xx != x for dd, ff, xx in states)
+        return ("local" if (prev in LOCAL or t in LOCAL) else "frame") + ":" + ("shared-epoch" if shared else "own-epoch")
+    for n, (i, t) in enumerate(scen["hops"]):
+        before = [(tagname(c), np.array(c)) for c in objs]
+        prev = before[i][0]
+        objs[i].frame = t
+        out.count(key=None, kind="multi-hop")
+        fam = cls(i, prev, t)
+        got = np.array(objs[i])
+        exp = expected(i, t)
+        want_tag = t if t in LOCAL else canon(t)
+        if tagname(objs[i]) != want_tag:
+            out.fail("multi-object:tag:" + fam, f"hop {n}: object {i} does not carry the requested tag", scen, observed=tagname(objs[i]), expected=want_tag)
+            return
+        if not mclose(got, exp, tscale(exp)):
+            rel = float(np.abs(got - exp).max() / max(np.abs(exp).max(), 1e-300))
+            out.fail("multi-object:wrong-matrix:" + fam,
+                     f"hop {n}: covariance {i} -> {t} is not R C R^T for its OWN state and matrix (other covariances are alive in the process)", scen,
+                     observed={"rel_diff": rel, "matrix": got.tolist()}, expected=exp.tolist())
+            return
+        for j, c in enumerate(objs):
+            if j != i and (tagname(c) != before[j][0] or not np.array_equal(np.array(c), before[j][1])):
+                out.fail("multi-object:other-modified:" + fam, f"hop {n}: changing the frame of covariance {i} modified covariance {j}", scen,
+                         observed={"tag": tagname(c), "matrix": np.array(c).tolist()}, expected={"tag": before[j][0], "matrix": before[j][1].tolist()})
+                return
+        for j, via, base, btag, bval in watch:
+            if tagname(base) != btag or not np.array_equal(np.array(base), bval):
+                out.fail("multi-object:origin-modified:" + via, f"hop {n}: changing the frame of covariance {i} modified the covariance object {j} was made from ({via})", scen,
+                         observed={"tag": tagname(base), "matrix": np.array(base).tolist()}, expected={"tag": btag, "matrix": bval.tolist()})
+                return
+    for i, c in enumerate(objs):
+        prev = tagname(c)
+        f0 = states[scen["objects"][i]["state"]][1]
+        c.frame = f0
+        out.count(key=None, kind="multi-back")
+        if not mclose(np.array(c), homes[i], tscale(homes[i])):
+            out.fail("multi-object:back:" + cls(i, prev, f0), f"covariance {i} converted back to the frame of its state is not the original one", scen,
+                     observed=np.array(c).tolist(), expected=homes[i].tolist())
+            return
+
+
+def derive_real(c, how, k, other=None):
+    """(derived array, exact factor a with values == a * values of c)"""
+    import copy as _copy
+    import numpy as np
+    if how == "k*c":
+        return k * c, k
+    if how == "c*k":
+        return c * k, k
+    if how == "c/k":
+        k = {9.0: 8.0}.get(k, k)          # a power of two: c / k == (1 / k) * c exactly
+        return c / k, 1.0 / k
+    if how == "-c":
+        return -c, -1.0
+    if how == "c+c.copy()":
+        return c + c.copy(), 2.0
+    if how == "np.add(c,c)":
+        return np.add(c, c), 2.0
+    if how == "array-subok":
+        return np.array(c, subok=True), 1.0
+    if how == "copy.copy":
+        return _copy.copy(c), 1.0
+    if how == "deepcopy":
+        return _copy.deepcopy(c), 1.0
+    if how == "astype":
+        return c.astype(float), 1.0
+    if how == "ndarray.copy":
+        return np.ndarray.copy(c), 1.0
+    raise ValueError(how)
+
+
+DERIVE_HOW = ["k*c", "c*k", "c/k", "-c", "c+c.copy()", "np.add(c,c)", "array-subok", "copy.copy", "deepcopy", "astype", "ndarray.copy"]
+
+
+def gen_derived(rng, how):
+    c0, sp, sv_, rank = gen_cov(rng)
+    f0 = rng.choice(NONROT)
+    l1 = rng.choice(LOCAL + [f0])
+    return {"kind": "derived", "date": gen_date(rng), "f0": f0, "x": gen_state(rng), "cov": c0.tolist(), "how": how, "k": rng.choice([9.0, 4.0, 0.25, 2.0]),
+            "tag1": l1, "target": rng.choice([t for t in LOCAL if t != l1] * 3 + [f for f in FRAMES if f != f0]),
+            "source_target": rng.choice(LOCAL + FRAMES)}
+
+
+def check_derived(out, scen):
+    import numpy as np
+    from beyond.orbits.cov import Cov
+    from beyond.frames.frames import get_frame
+    date, f0, x, how, k = scen["date"], scen["f0"], scen["x"], scen["how"], scen["k"]
+    c0 = np.array(scen["cov"])
+
+    def ref(t):
+        R = ref_rotation(x, date, f0, t)
+        return R @ c0 @ R.T
+
+    def source():
+        c = Cov(make_sv(x, date, f0), c0.copy(), get_frame(f0))
+        c.frame = scen["tag1"]
+        return c
+    tag1 = scen["tag1"]
+    # ---- the derived array changes frame; its source must not notice
+    c = source()
+    v1 = np.array(c)
+    e, a = derive_real(c, how, k)
+    out.count(key=("derived", how, tag1, scen["target"], tuple(x)), kind="derived", how=how, target="local" if scen["target"] in LOCAL else "frame",
+              born="local" if tag1 in LOCAL else "frame")
+    if not hasattr(e, "frame") or tagname(e) != tag1 or not np.array_equal(np.array(e), a * v1):
+        out.fail("derived:born-wrong:" + how, "an array derived from a covariance does not carry its frame / the values numpy computed", scen,
+                 observed={"tag": tagname(e) if hasattr(e, "_data") else None, "matrix": np.array(e).tolist()}, expected={"tag": tag1, "matrix": (a * v1).tolist()})
+        return
+    t = scen["target"]
+    try:
+        e.frame = t
+        moved = True
+    except AttributeError as ex:
+        moved = False
+        attr = str(ex).split("'")[-2] if str(ex).count("'") >= 2 else "?"
+        out.fail("derived-cov-frame:AttributeError:" + attr + (":local-to-local" if (tag1 in LOCAL and t in LOCAL) else ":frame-involved"), "a covariance derived by a numpy operation (k * cov, cov + cov, copy.copy(cov), ...) cannot change frame as soon as a "
+                 "regular frame is involved: __array_finalize__ does not carry `_orb_frame`", scen, observed=f"AttributeError: {ex}", expected=(a * ref(t)).tolist())
+    if moved and not mclose(np.array(e), a * ref(t), tscale(ref(t)) * math.sqrt(abs(a))):
+        out.fail("derived:wrong-matrix:" + how, "the frame change of a derived covariance is not R C R^T", scen, observed=np.array(e).tolist(), expected=(a * ref(t)).tolist())
+        return
+    if tagname(c) != tag1 or not np.array_equal(np.array(c), v1):
+        out.fail("derived-alias:" + how + ":source-touched", "changing the frame of an array derived from a covariance modified the covariance it was derived from "
+                 "(label and/or values)", scen, observed={"tag": tagname(c), "values_untouched": bool(np.array_equal(np.array(c), v1))}, expected={"tag": tag1, "values_untouched": True})
+        return
+    c.frame = f0
+    if not mclose(np.array(c), c0, tscale(c0)):
+        out.fail("derived-alias:" + how + ":source-wrong-after", "after a derived array changed frame, the source covariance no longer converts back to its original matrix", scen,
+                 observed=np.array(c).tolist(), expected=c0.tolist())
+        return
+    # ---- the source changes frame; the derived array must not notice, and still converts by its own tag
+    c = source()
+    e, a = derive_real(c, how, k)
+    ev = np.array(e)
+    c.frame = scen["source_target"]
+    if tagname(e) != tag1 or not np.array_equal(np.array(e), ev):
+        out.fail("derived-alias:" + how + ":derived-touched", "changing the frame of a covariance modified an array derived from it earlier", scen,
+                 observed={"tag": tagname(e), "values_untouched": bool(np.array_equal(np.array(e), ev))}, expected={"tag": tag1, "values_untouched": True})
+        return
+    if tag1 in LOCAL:
+        t2 = [q for q in LOCAL if q != tag1][0]
+        e.frame = t2
+        if tagname(e) != t2 or not mclose(np.array(e), a * ref(t2), tscale(ref(t2)) * math.sqrt(abs(a))):
+            out.fail("derived:wrong-matrix:" + how, "the frame change of a derived covariance (after its source moved) is not R C R^T", scen,
+                     observed=np.array(e).tolist(), expected=(a * ref(t2)).tolist())
+
+
+def gen_ctor(rng, vkind):
+    return {"kind": "ctor", "date": gen_date(rng), "f0": rng.choice(NONROT), "x": gen_state(rng), "ci": gen_cov_int(rng).tolist(), "vkind": vkind,
+            "target": rng.choice(LOCAL * 2 + FRAMES)}
+
+
+def check_ctor(out, scen):
+    """every kind of `values` the constructor accepts: the covariance holds those numbers (as doubles), owns its memory, converts like any other"""
+    import numpy as np
+    from beyond.orbits.cov import Cov
+    from beyond.frames.frames import get_frame
+    date, f0, x, vkind = scen["date"], scen["f0"], scen["x"], scen["vkind"]
+    ci = np.array(scen["ci"], dtype=np.int64)
+    want = ci.astype(float)
+    sv = make_sv(x, date, f0)
+    vals = as_kind(ci, vkind, sv)
+    keep = np.array(vals, dtype=float).copy() if isinstance(vals, np.ndarray) else None
+    out.count(key=("ctor", vkind, scen["target"], tuple(x)), kind="constructor", values=vkind)
+    fam = "cov-constructor-dtype:" + vkind
+    try:
+        c = Cov(sv, vals, get_frame(f0))
+    except Exception as ex:  # noqa: BLE001 - the exception is the observation
+        out.fail(fam, "Cov(sv, values, frame) refuses a symmetric 6x6 matrix given as " + vkind, scen, observed=f"{type(ex).__name__}: {ex}", expected=want.tolist())
+        return
+    got = np.array(c)
+    if got.dtype != np.float64 or got.shape != (6, 6) or not np.array_equal(got, want):
+        out.fail(fam, "Cov(sv, values, frame) does not hold the numbers it was given (values given as " + vkind + ")", scen,
+                 observed={"dtype": str(got.dtype), "matrix": got.tolist()}, expected=want.tolist())
+        return
+    R = ref_rotation(x, date, f0, scen["target"])
+    c.frame = scen["target"]
+    if not mclose(np.array(c), R @ want @ R.T, tscale(want)):
+        out.fail("cov-constructor-hop:" + vkind, "a covariance built from " + vkind + " values does not convert to R C R^T", scen,
+                 observed=np.array(c).tolist(), expected=(R @ want @ R.T).tolist())
+        return
+    if keep is not None:
+        if not np.array_equal(np.array(vals, dtype=float), keep):
+            out.fail("cov-constructor-alias:" + vkind, "changing the frame of the covariance rewrote the array it was built from", scen,
+                     observed=np.array(vals, dtype=float).tolist(), expected=keep.tolist())
+            return
+        snap = np.array(c).copy()
+        try:
+            np.asarray(vals)[0, 0] += 1
+        except (ValueError, TypeError):
+            pass
+        if not np.array_equal(np.array(c), snap):
+            out.fail("cov-constructor-alias:" + vkind, "writing into the array a covariance was built from changed the covariance", scen,
+                     observed=np.array(c).tolist(), expected=snap.tolist())
+
+
+def gen_unpickled(rng):
+    f0 = rng.choice(NONROT)
+    return {"kind": "unpickled", "date": gen_date(rng), "f0": f0, "x": gen_state(rng), "cov": gen_cov(rng)[0].tolist(), "g": rng.choice([f for f in FRAMES if f != f0]),
+            "whole_state": rng.random() < 0.5}
+
+
+def check_unpickled(out, scen):
+    """a covariance that went through pickle (multiprocessing) and is attached to its state follows that state"""
+    import pickle
+    import numpy as np
+    from beyond.orbits.cov import Cov
+    from beyond.frames.frames import get_frame
+    date, f0, x, g = scen["date"], scen["f0"], scen["x"], scen["g"]
+    c0 = np.array(scen["cov"])
+    sv = make_sv(x, date, f0)
+    if scen["whole_state"]:
+        sv.cov = Cov(sv, c0.copy(), get_frame(f0))
+        sv = pickle.loads(pickle.dumps(sv))
+    else:
+        sv.cov = pickle.loads(pickle.dumps(Cov(sv, c0.copy(), get_frame(f0))))
+    sv.frame = g
+    R = ref_rotation(x, date, f0, g)
+    out.count(key=("unpickled", f0, g, tuple(x)), kind="unpickled", whole_state=scen["whole_state"])
+    if tagname(sv.cov) != g or not mclose(np.array(sv.cov), R @ c0 @ R.T, tscale(c0)):
+        out.fail("unpickled-cov:not-following:" + ("state-pickled" if scen["whole_state"] else "cov-pickled"),
+                 "a covariance that went through pickle, attached to its state and expressed in the state's frame, does not follow the state into another frame", scen,
+                 observed={"state": sv.frame.name, "cov": tagname(sv.cov)}, expected={"state": g, "cov": g})
+
+
+def guarded(check, out, scen):
+    """an exception nobody expects inside a family is a failing input of that family, not a harness error"""
+    try:
+        check(out, scen)
+    except Exception as ex:  # noqa: BLE001
+        import traceback
+        tb = traceback.extract_tb(ex.__traceback__)
+        site = next((f"{os.path.basename(fr.filename)}:{fr.name}" for fr in reversed(tb) if "beyond" in fr.filename), "harness")
+        out.fail(f"{scen['kind']}:exception:{type(ex).__name__}:{site}", f"unexpected {type(ex).__name__} ({ex}) at {site}", scen, observed=f"{type(ex).__name__}: {ex}")
+
+
+CHECKS = {"multi": check_multi, "derived": check_derived, "ctor": check_ctor, "unpickled": check_unpickled}
+
+
+def several_objects(out, rng, big):
+    for _ in range(250 if big else 25):
+        guarded(check_multi, out, gen_multi(rng))
+    for how in DERIVE_HOW:
+        for _ in range(20 if big else 3):
+            guarded(check_derived, out, gen_derived(rng, how))
+    for vkind in INT_KINDS:
+        for _ in range(10 if big else 2):
+            guarded(check_ctor, out, gen_ctor(rng, vkind))
+    for _ in range(40 if big else 6):
+        guarded(check_unpickled, out, gen_unpickled(rng))
 
 
 def named_tags(out, rng, n):
@@ -617,6 +1370,11 @@ def replay(f):
     out = Outcome()
     inp = f["input"]
     fam = f["family"]
+    if isinstance(inp, dict) and inp.get("kind") in CHECKS:
+        tmp = Outcome()
+        guarded(CHECKS[inp["kind"]], tmp, inp)
+        out.failures = [g for g in tmp.failures if g["family"] == fam]
+        return out
     if fam.startswith("conv-law") or fam == "local-equivariance":
         tmp = Outcome()
         import random
